@@ -91,6 +91,8 @@ def check_direct(case) -> Result:
     if kind == 'constant':
         a, d = U.si('Time', *r['start']), U.si('TimeInterval', *r['duration'])
         act = RU.constant_active(t, a, d)
+        if stt.get('cross_unit_tie'):
+            act = True                      # t and d denote the same magnitude (exactly, as decimals)
         margin = min(abs(t - a), abs(t - (a + d))) / max(d, 1e-300)
         near = margin <= 0.05
         amb = (not exact) and margin <= 1e-9
@@ -303,7 +305,20 @@ def s_direct(draw):
     side = draw(st.sampled_from([-1, 1]))
     off = draw(st.one_of(st.floats(1e-6, 0.05), st.floats(0.05, 2.0)))
     stt = {'t': [0.0, 'sec']}
-    if kind == 'constant':
+    if kind == 'constant' and exact and draw(st.booleans()):
+        # window [0, d] with d and t the same decimal magnitude written in two different units: the end is inclusive
+        # and 'the same magnitude up to rounding' compares equal (C05), so the rule is applicable at t = d
+        ms = draw(st.integers(1, 5000)) * draw(st.sampled_from([1, 10, 100]))
+        units = draw(st.permutations(['sec', 'ms', 'min']))[:2]
+
+        def lit(unit):
+            from fractions import Fraction as Fr
+            return [float(Fr(ms, 1000) / U.factor('Time', unit)), unit]
+        r = {'rule': 'constant', 'start': [0, draw(st.sampled_from(['sec', 'ms']))], 'duration': lit(units[0]),
+             'value': draw(st.floats(-1, 1))}
+        stt['t'] = lit(units[1])
+        stt['cross_unit_tie'] = True
+    elif kind == 'constant':
         if exact:
             a, d = draw(st.integers(0, 64)) / 8, draw(st.integers(1, 64)) / 8
             r = {'rule': 'constant', 'start': [a, 'sec'], 'duration': [d, 'sec'], 'value': draw(st.floats(-1, 1))}
